@@ -123,3 +123,37 @@ Proof.
     + apply negb_true_iff in H2. apply Nat.eqb_neq in H2. exact H2.
     + apply negb_true_iff. apply Nat.eqb_neq. exact H2.
 Qed.
+
+(* S level, discrete marks (the rules of the repaired code):
+   fixing a BINARY variable to a non-zero value clears the mark of every constraint that contains it *)
+Theorem fix_variable_marks : forall l a q q' x,
+  find_var l (q_vars q) = Some x -> v_vt x = BINARY -> Qc_eqb a 0 = false ->
+  fix_one l a q = (q', XNone) ->
+  map k_mark (q_cons q') = map (fun k => k_mark k && negb (pmentions (k_p k) l)) (q_cons q).
+Proof.
+  intros l a q q' x Hf Hvt Ha H. unfold fix_one in H. rewrite Hf, Hvt, Ha in H. cbn [is_binary negb andb] in H.
+  injection H as <-. unfold set_vars, map_exprs, set_cons. cbn [q_cons]. rewrite !map_map.
+  apply map_ext. intros k. destruct (k_mark k) eqn:M; destruct (pmentions (k_p k) l) eqn:P; cbn [andb negb];
+    cbn [con_set_p con_set_mark k_mark]; try rewrite M; reflexivity.
+Qed.
+
+(* ... and any other fix leaves all marks *)
+Theorem fix_variable_marks_other : forall l a q q' x,
+  find_var l (q_vars q) = Some x -> (is_binary (v_vt x) && negb (Qc_eqb a 0) = false) ->
+  fix_one l a q = (q', XNone) ->
+  map k_mark (q_cons q') = map k_mark (q_cons q).
+Proof.
+  intros l a q q' x Hf Hc H. unfold fix_one in H. rewrite Hf, Hc in H.
+  injection H as <-. unfold set_vars, map_exprs. cbn [q_cons]. rewrite !map_map. apply map_ext. intros k. reflexivity.
+Qed.
+
+(* flipping clears the mark of exactly the constraints that were discrete and contained the variable *)
+Theorem flip_variable_marks : forall l q q',
+  flip l q = (q', XNone) ->
+  map k_mark (q_cons q') = map (fun k => k_mark k && negb (is_discrete (q_vars q) k && pmentions (k_p k) l)) (q_cons q).
+Proof.
+  intros l q q' H. unfold flip in H. destruct (find_var l (q_vars q)) as [x|]; [|discriminate].
+  destruct (v_vt x); try discriminate; injection H as <-; cbn [q_cons]; rewrite !map_map; apply map_ext; intros k;
+    destruct (is_discrete (q_vars q) k && pmentions (k_p k) l); cbn [negb];
+    cbn [con_set_p con_set_mark k_mark]; rewrite ?andb_true_r, ?andb_false_r; reflexivity.
+Qed.
